@@ -84,16 +84,29 @@ def parse_dkvp(text):
     return out
 
 
-def selftest_corruption(module, obs, consts=None, mutate=None):
-    """Non-vacuity of an Obs module: a corrupted copy of a conforming observation must be reported."""
+def selftest_corruption(module, obs, consts=None, mutate=None, tries=12, **kw):
+    """Non-vacuity of an Obs module: a corrupted copy of a CONFORMING observation must be reported (and the observation
+    itself must not be). Candidates whose uncorrupted form does not conform -- which happens on a tree that breaks the
+    property -- are skipped, so that a broken tree yields violations, not an inconclusive self-test."""
     import copy
+    tried = 0
     for o in obs:
-        if o.get("out"):
-            a = copy.deepcopy(o)
-            if mutate:
-                mutate(a)
-            else:
-                a["out"] = a["out"][1:]       # drop the first output record
-            bad, _ = validate(module, [a, o], consts)
-            return {"ok": [b[0] for b in bad] == [0], "reported": [b[0] for b in bad]}
-    return {"ok": False, "why": "no candidate"}
+        if not o.get("out"):
+            continue
+        a = copy.deepcopy(o)
+        if mutate:
+            mutate(a)
+        else:
+            a["out"] = a["out"][1:]       # drop the first output record
+        if a == o:
+            continue
+        bad, _ = validate(module, [a, o], consts, **kw)
+        idx = [b[0] for b in bad]
+        if 1 in idx:
+            tried += 1
+            if tried >= tries:
+                break
+            continue
+        return {"ok": idx == [0], "reported": idx}
+    # (callers raise Inconclusive only on ok == False: a candidate was found and its corruption went unnoticed)
+    return {"ok": None if tried else False, "why": "no conforming candidate" if tried else "no candidate"}
